@@ -1,7 +1,7 @@
-(* Extraction of M-SCHEMA (C02): the generic differ instantiated with the SQLite driver.
-   ExtrOcamlBasic only; nat, positive, N stay inductive. *)
+(* Extraction of M-SCHEMA (C02): the generic differ instantiated with the SQLite, MySQL and
+   PostgreSQL drivers.  ExtrOcamlBasic only; nat, positive, N stay inductive. *)
 Require Extraction.
 Require Import ExtrOcamlBasic.
-From Atlas Require Import Base.Bytes Diff.Schema Diff.DiffModel Diff.DiffSqlite.
+From Atlas Require Import Base.Bytes Diff.Schema Diff.DiffModel Diff.DiffSqlite Diff.DiffDialects.
 Extraction Language OCaml.
-Extraction "model.ml" sqlite_schema_diff sqlite_table_diff.
+Extraction "model.ml" sqlite_schema_diff sqlite_table_diff mysql_schema_diff mysql_table_diff pg_schema_diff pg_table_diff.
